@@ -174,6 +174,16 @@ def fn_old_format(spec, rec):
         dc2 = GlueUnSerializer.loads(text).object("__main__")
     except Exception as e:  # noqa
         raise Mismatch("old-format-fails-to-load/%s-v%d/%s" % (tname, version, type(e).__name__), repr(e)[:400])
+    # whatever the format, the loaded collection is a well-formed one: every subset of every dataset belongs to a group of the
+    # collection, and every dataset has exactly one subset per group (old records with plain subsets are converted)
+    gids = [id(g) for g in dc2.subset_groups]
+    for d2 in dc2:
+        owners = [id(getattr(s2, "group", None)) for s2 in d2.subsets]
+        if any(o not in gids for o in owners):
+            raise Mismatch("old-format-leaves-subset-outside-any-group/%s-v%d" % (tname, version), {"dataset": d2.label, "subsets": [s2.label for s2 in d2.subsets]})
+        if sorted(owners) != sorted(gids):
+            raise Mismatch("old-format-groups-and-dataset-subsets-disagree/%s-v%d" % (tname, version),
+                           {"dataset": d2.label, "n_subsets": len(owners), "n_groups": len(gids)})
     after = session.observe(dc2, fields)
     nonconst = any(isinstance(m, list) and any(m) and not all(m) for d in before["datasets"] for _, m in d.get("subsets", []))
     if plain:
